@@ -204,7 +204,11 @@ func (cs *clientState) unblock(reason string, isError bool) {
 				cs.unblockCh <- unblockReason{reason: reason, isError: isError}
 			}
 		}
-		atomic.SwapInt32(&cs.blocked, locked)
+		if locked != CS_CHECKING {
+			// the goroutine that displaced the state puts it back; putting back the
+			// CS_CHECKING of another checker would leave the client in that state forever
+			atomic.SwapInt32(&cs.blocked, locked)
+		}
 
 		if locked == CS_UNCAPTURED || locked == CS_CAPTURED {
 			return
@@ -231,7 +235,11 @@ func (cs *clientState) isBlocked() bool {
 		if locked == CS_CAPTURED {
 			blocked = true
 		}
-		atomic.SwapInt32(&cs.blocked, locked)
+		if locked != CS_CHECKING {
+			// the goroutine that displaced the state puts it back; putting back the
+			// CS_CHECKING of another checker would leave the client in that state forever
+			atomic.SwapInt32(&cs.blocked, locked)
+		}
 
 		if locked == CS_UNCAPTURED || locked == CS_CAPTURED {
 			return blocked
